@@ -1,4 +1,3 @@
 package main
 
 func runKV(tr *Tracer, s *Scenario) bool    { panic("kv: not implemented") }
-func runOrder(tr *Tracer, s *Scenario) bool { panic("order: not implemented") }
